@@ -337,9 +337,10 @@ Qed.
 
 (* a monitor that leaves (or is closed) changes nothing in the core *)
 Lemma disconnect_monitor_core st c :
-  is_monitor st c = true -> core (fst (disconnect st c)) = core st /\ snd (disconnect st c) = [].
+  Inv st -> is_monitor st c = true -> core (fst (disconnect st c)) = core st /\ snd (disconnect st c) = [].
 Proof.
-  intros Hm. unfold disconnect. rewrite Hm. simpl. split; auto.
+  intros I Hm. unfold disconnect. rewrite Hm. unfold noreply_items. simpl.
+  destruct (monitor_no_pending st c I Hm) as [Ed Eo]. rewrite Ed, Eo. simpl. split; auto.
   unfold core. simpl. f_equal. unfold is_monitor. simpl. rewrite filter_filter. apply filter_ext_in.
   intros x _. rewrite memN_filter_neq. destruct (x =? c) eqn:E; simpl.
   - apply N.eqb_eq in E. subst. unfold is_monitor in Hm. rewrite Hm. reflexivity.
@@ -446,7 +447,7 @@ Proof.
     { destruct e; simpl in *; try discriminate; inversion Ha; subst; rewrite connected_core, Hm, andb_false_r; reflexivity. }
     unfold step at 1 3. rewrite W'. simpl. rewrite CC.
     unfold step. destruct (wf_event st e) eqn:W; simpl; [|split; auto].
-    destruct (disconnect_monitor_core st c Hm) as [D1 D2].
+    destruct (disconnect_monitor_core st c I Hm) as [D1 D2].
     destruct e as [priv|c0|c0 m|c0 s n dnq|c0 s n|c0 s f|c0 s|c0 s so fl rs]; simpl in Ha; try discriminate; inversion Ha; subst c0; simpl;
       try (rewrite Hm; rewrite D1, D2; split; auto).
     - rewrite D1, D2. split; auto.
